@@ -45,8 +45,11 @@ type FileSpec struct {
 	Pkg       string
 	Services  []ServiceSpec
 	LocalMsgs bool
-	Protolib  string // "" (google) | "gogo" | "custom"
-	NoJSON    bool
+	// SiblingMsgs: the messages live in a second .proto file with the SAME proto package but a
+	// different go_package (compiled only: the echo implementation is not derived for it)
+	SiblingMsgs bool
+	Protolib    string // "" (google) | "gogo" | "custom"
+	NoJSON      bool
 }
 
 func (f FileSpec) String() string {
@@ -67,7 +70,11 @@ func (f FileSpec) String() string {
 		}
 		ss = append(ss, s.Name+"("+strings.Join(ms, ",")+")")
 	}
-	return fmt.Sprintf("pkg=%q %s local=%v lib=%q json=%v", f.Pkg, strings.Join(ss, " "), f.LocalMsgs, f.Protolib, !f.NoJSON)
+	sib := ""
+	if f.SiblingMsgs {
+		sib = " messages-in-a-sibling-file(other go package)"
+	}
+	return fmt.Sprintf("pkg=%q %s local=%v lib=%q json=%v%s", f.Pkg, strings.Join(ss, " "), f.LocalMsgs, f.Protolib, !f.NoJSON, sib)
 }
 
 func sp(s string) *string { return &s }
@@ -84,7 +91,14 @@ func (f FileSpec) descriptor(idx int) *descriptorpb.FileDescriptorProto {
 		fd.Package = sp(f.Pkg)
 	}
 	in, out := ".google.protobuf.StringValue", ".google.protobuf.StringValue"
-	if f.LocalMsgs {
+	if f.SiblingMsgs {
+		prefix := "."
+		if f.Pkg != "" {
+			prefix = "." + f.Pkg + "."
+		}
+		in, out = prefix+"Req", prefix+"Resp"
+		fd.Dependency = []string{fmt.Sprintf("f%dm.proto", idx)}
+	} else if f.LocalMsgs {
 		prefix := "."
 		if f.Pkg != "" {
 			prefix = "." + f.Pkg + "."
@@ -103,6 +117,23 @@ func (f FileSpec) descriptor(idx int) *descriptorpb.FileDescriptorProto {
 			sd.Method = append(sd.Method, &descriptorpb.MethodDescriptorProto{Name: sp(m.Name), InputType: sp(in), OutputType: sp(out), ClientStreaming: bp(m.CS), ServerStreaming: bp(m.SS)})
 		}
 		fd.Service = append(fd.Service, sd)
+	}
+	return fd
+}
+
+// sibling is the second file of a SiblingMsgs spec: same proto package, its own Go package.
+func (f FileSpec) sibling(idx int) *descriptorpb.FileDescriptorProto {
+	fd := &descriptorpb.FileDescriptorProto{
+		Name:    sp(fmt.Sprintf("f%dm.proto", idx)),
+		Syntax:  sp("proto3"),
+		Options: &descriptorpb.FileOptions{GoPackage: sp(fmt.Sprintf("genmod/p%d/msgs;msgs", idx))},
+	}
+	if f.Pkg != "" {
+		fd.Package = sp(f.Pkg)
+	}
+	lbl, str := descriptorpb.FieldDescriptorProto_LABEL_OPTIONAL, descriptorpb.FieldDescriptorProto_TYPE_STRING
+	for _, n := range []string{"Req", "Resp"} {
+		fd.MessageType = append(fd.MessageType, &descriptorpb.DescriptorProto{Name: sp(n), Field: []*descriptorpb.FieldDescriptorProto{{Name: sp("value"), Number: ip(1), Label: &lbl, Type: &str, JsonName: sp("value")}}})
 	}
 	return fd
 }
@@ -401,6 +432,11 @@ func specs(tier string) []FileSpec {
 			}
 		}
 	}
+	// messages in a sibling file of the same proto package that is generated into another Go package
+	for _, pkg := range []string{"p", "acme.api"} {
+		all := []MethodSpec{{"M", false, false}, {"Bar", true, false}, {"get_x", false, true}, {"Stream", true, true}}
+		out = append(out, FileSpec{Pkg: pkg, SiblingMsgs: true, Services: []ServiceSpec{{Name: "Foo", Methods: all}}})
+	}
 	// names whose concatenation with '_' splits ambiguously: Foo + Bar_M  vs  Foo_Bar + M (also a
 	// digit after the underscore); the generated identifiers of the two must stay distinct
 	for _, amb := range [][4]string{{"Foo", "Bar_M", "Foo_Bar", "M"}, {"S", "V2_Get", "S_V2", "Get"}} {
@@ -457,14 +493,18 @@ func RunSpecs(all []FileSpec) ([]outcome, error) {
 	var mu sync.Mutex
 	seq.Parallel(len(all), func(i int) {
 		spec := all[i]
-		if spec.LocalMsgs {
+		if spec.LocalMsgs || spec.SiblingMsgs {
 			// message full names must be unique within the one driver binary (protobuf registry)
 			spec.Pkg = fmt.Sprintf("%s.u%d", spec.Pkg, i)
 		}
 		o := outcome{spec: spec, idx: i}
 		defer func() { mu.Lock(); res[i] = o; mu.Unlock() }()
 		fd := spec.descriptor(i)
-		req := &pluginpb.CodeGeneratorRequest{FileToGenerate: []string{fd.GetName()}, ProtoFile: []*descriptorpb.FileDescriptorProto{wrappers, fd}}
+		files := []*descriptorpb.FileDescriptorProto{wrappers, fd}
+		if spec.SiblingMsgs {
+			files = []*descriptorpb.FileDescriptorProto{wrappers, spec.sibling(i), fd}
+		}
+		req := &pluginpb.CodeGeneratorRequest{FileToGenerate: []string{fd.GetName()}, ProtoFile: files}
 		if p := spec.param(); p != "" {
 			req.Parameter = sp(p)
 		}
@@ -487,6 +527,20 @@ func RunSpecs(all []FileSpec) ([]outcome, error) {
 		}
 		if len(spec.Services) == 0 || drpcFile == "" {
 			o.cls = "nothing-generated"
+			return
+		}
+		if spec.SiblingMsgs {
+			sib := spec.sibling(i)
+			r2, err := runPlugin(pgg, &pluginpb.CodeGeneratorRequest{FileToGenerate: []string{sib.GetName()}, ProtoFile: files})
+			if err != nil || r2.Error != nil {
+				o.msg, o.cls = fmt.Sprintf("HARNESS protoc-gen-go failed: %v %v", err, r2.GetError()), "harness"
+				return
+			}
+			_ = os.MkdirAll(filepath.Join(dir, "msgs"), 0o755)
+			for _, f := range r2.File {
+				_ = os.WriteFile(filepath.Join(dir, "msgs", filepath.Base(f.GetName())), []byte(f.GetContent()), 0o644)
+			}
+			o.cls = "generated" // compiled only (see below)
 			return
 		}
 		if spec.LocalMsgs {
@@ -540,7 +594,7 @@ func RunSpecs(all []FileSpec) ([]outcome, error) {
 	// gogo-protolib programs are compiled only (their messages are not gogo messages)
 	var run []int
 	for _, i := range good {
-		if all[i].Protolib == "gogo" {
+		if all[i].Protolib == "gogo" || all[i].SiblingMsgs {
 			res[i].cls = "compiles"
 			continue
 		}
